@@ -3,6 +3,7 @@ package gosym
 import (
 	"fmt"
 	"go/token"
+	"math"
 	"strconv"
 	"strings"
 
@@ -36,6 +37,25 @@ func (in *Interp) fpBinop(op token.Token, x, y *Term) Value {
 			return tb.SLe(d, z)
 		case token.GEQ:
 			return tb.SLe(z, d)
+		}
+	}
+	if x.Op == OFPConst && y.Op == OFPConst {
+		// both operands concrete: decide comparisons here (IEEE semantics of the
+		// host), so that no floating-point term reaches a bit-vector logic
+		a, b := math.Float64frombits(x.V), math.Float64frombits(y.V)
+		switch op {
+		case token.EQL:
+			return tb.Bool(a == b)
+		case token.NEQ:
+			return tb.Bool(a != b)
+		case token.LSS:
+			return tb.Bool(a < b)
+		case token.LEQ:
+			return tb.Bool(a <= b)
+		case token.GTR:
+			return tb.Bool(a > b)
+		case token.GEQ:
+			return tb.Bool(a >= b)
 		}
 	}
 	if (x.Op == ORaw && x.N == "dur.seconds") || (y.Op == ORaw && y.N == "dur.seconds") {
